@@ -88,6 +88,8 @@ class Sim:
         self.hid_kwargs = hid_kwargs or {}
         self.dev_inst_map = dev_inst_map
         self.register_callbacks = register_callbacks
+        self.hostile = False
+        self.hostile_calls = 0
         logging.disable(logging.CRITICAL)
 
     # -- the bus: unique answer values per transmitted frame unless the harness decides otherwise
@@ -131,6 +133,12 @@ class Sim:
             if self.register_callbacks:
                 self.driver.connection_status_callback.register(lambda d, s: self.status_events.append((w.now, s)))
                 self.driver.bus_traffic.register(lambda d, c, r, e: self.traffic.append((w.now, c, r, e)))
+                # applications' listeners are not all well behaved: some leave from inside their own notification, some
+                # subscribe another listener there, some raise.  None of that is the driver's business.
+                self.hostile = p("hostile-listeners", [False, False, False, "leave", "raise", "all"])
+                if self.hostile:
+                    for reg in (self.driver.connection_status_callback, self.driver.bus_traffic):
+                        self._hostile_listeners(reg)
         else:
             S = importlib.import_module("dali.driver.serial")
             if self.kind == "luba":
@@ -156,6 +164,31 @@ class Sim:
                 if self.bus2 is not None:
                     self.driver2 = S.DriverSCIRS232("scirs232:/dev/ttySCI2")
         return self.driver
+
+    def _hostile_listeners(self, reg):
+        box = {}
+
+        def one_shot(*a):
+            self.hostile_calls += 1
+            h = box.pop("h", None)
+            if h is not None:
+                h.unregister()
+
+        def spawner(*a):
+            self.hostile_calls += 1
+            if "spawned" not in box:
+                box["spawned"] = reg.register(lambda *a2: None)
+
+        def raiser(*a):
+            self.hostile_calls += 1
+            raise vloop.ListenerError("an application's listener raised")
+        if self.hostile in ("raise", "all"):
+            reg.register(raiser)
+        if self.hostile in ("leave", "all"):
+            box["h"] = reg.register(one_shot)
+            reg.register(spawner)
+        if self.hostile == "all":
+            reg.register(raiser)
 
     async def connect(self):
         d = self.driver
